@@ -118,7 +118,10 @@ fn candidates(i: &Inner, only_objs: Option<&[u8]>, dormant_pool_threads: usize, 
         } else if let Some(g) = o.waiting_gate {
             // resuming needs the context that ran it (a parked sync caller, a polling task) or a pool thread
             // (quiet aftermath of a panic: only a wake-up that certainly came after the lost thread was gone is one the library must act on)
-            if i.gates[g].open && (!quiet_after_panic || (i.gates[g].opened_in_final && i.panic_clock < i.final_stage_clock)) && (pool_capacity || !pool_task(if o.last_poll_task != usize::MAX { o.last_poll_task } else { o.runner_task })) {
+            // (a thread that is blocked in sync() on this object is a runner too: it takes a rescheduled queue over)
+            // (not for a future_sync operation: that one is polled by the task that owns its future, nobody else)
+            let sync_waiter = o.kind != Kind::FutSync && i.ops.iter().any(|a| a.obj == o.obj && a.kind == Kind::Sync && a.inv != 0 && a.ret == 0 && a.start == 0 && !a.panicked);
+            if i.gates[g].open && (!quiet_after_panic || (i.gates[g].opened_in_final && i.panic_clock < i.final_stage_clock)) && (pool_capacity || sync_waiter || !pool_task(if o.last_poll_task != usize::MAX { o.last_poll_task } else { o.runner_task })) {
                 out.push(Cand { op: Some(id), obj: o.obj, prop: "C06", clause: "wake-lost", inv: o.inv, ret: o.ret, detail: format!("{:?} #{} on o{} is suspended on gate g{} which was opened at t={} but was never resumed", o.kind, id, o.obj, g, i.gates[g].opened_at) });
             }
         }
